@@ -327,8 +327,7 @@ impl<'a, P: Pe<'a>> By<'a, P> {
 		match self.name_indices.iter().position(|&i| i as usize == index) {
 			Some(hint) => {
 				// Lookup the name
-				let name_rva = self.names[hint];
-				let name = self.exp.pe.derva_c_str(name_rva)?;
+				let name = self.name_of_hint(hint)?;
 				Ok(Import::ByName { hint, name })
 			},
 			None => {
@@ -352,7 +351,7 @@ impl<'a, P: Pe<'a>> By<'a, P> {
 	}
 	/// Iterate over functions exported by name, returning their name and index in the functions table.
 	pub fn iter_name_indices<'s>(&'s self) -> impl 's + Clone + Iterator<Item = (Result<&'a CStr>, usize)> {
-		(0..self.names().len() as u32).map(move |hint| (self.name_of_hint(hint as usize), self.name_indices[hint as usize] as usize))
+		(0..self.names().len() as u32).zip(self.name_indices.iter()).map(move |(hint, &index)| (self.name_of_hint(hint as usize), index as usize))
 	}
 }
 impl<'a, P: Pe<'a>> fmt::Debug for By<'a, P> {
